@@ -16,6 +16,9 @@ REQUIRED_THEOREMS = [
     "C16.exit_block_effect",
     "C16.call_again_after_exit_raises",
     "C16.exit_stops_dispatch",
+    "C16.sequential_promptness",
+    "C16.sequential_overlap_raises",
+    "C16.sequential_close_leaves_clean",
 ]
 TRUSTED_EXTRA = [
     "M1 granularity: completion callbacks are atomic and happen at hook points of the caller (configure, compute_batch_size, sleep, consumer "
